@@ -6,3 +6,4 @@ import SparseV.Props.C13
 #print axioms SparseV.C13.cache_iter_race_counterexample
 #print axioms SparseV.C13.no_new_errors_partial
 #print axioms SparseV.C13.snapshot_no_errors
+#print axioms SparseV.C13.coarse_run_is_fine_run
